@@ -223,9 +223,34 @@ theorem C18_unmanaged_ignored {addr0 s} (hr : Reach addr0 s) {a : Nat} (hm : s.m
     simp [hc, ← hi.mem c, this]
   · simp [hc]
 
-/-- each mediated invitation is delivered to the callback exactly once, nothing else calls it -/
+/-- each mediated invitation payload of a message is delivered to the callback exactly once —
+whatever its position among the children of the message — and nothing else calls the callback -/
 theorem C18_invite_once {s a s'} (hs : step s a = some s') :
-    s'.invites = if a = .invite then s.invites + 1 else s.invites := by
+    s'.invites = match a with
+      | .message cs => s.invites + invitationsIn cs
+      | _ => s.invites := by
   step_cases <;> simp
+
+/-- the order of the children does not matter -/
+theorem C18_invite_order_irrelevant {cs cs' : List Child} (h : cs.Perm cs') :
+    invitationsIn cs = invitationsIn cs' := by
+  unfold invitationsIn
+  exact (h.filter _).length_eq
+
+/-- a message with exactly one mediated invitation payload, anywhere, gives exactly one callback;
+one without gives none (body, subject, legacy direct invitation, decline, other payloads) -/
+theorem C18_invite_anywhere (pre post : List Child) (hpre : Child.mucInvite ∉ pre) (hpost : Child.mucInvite ∉ post) :
+    invitationsIn (pre ++ .mucInvite :: post) = 1 ∧ invitationsIn (pre ++ post) = 0 := by
+  have h : ∀ l : List Child, Child.mucInvite ∉ l → (l.filter (· == .mucInvite)) = [] := by
+    intro l hl
+    apply List.filter_eq_nil_iff.mpr
+    intro x hx hxe
+    have : x = .mucInvite := by simpa using hxe
+    exact hl (this ▸ hx)
+  unfold invitationsIn
+  simp [List.filter_append, h pre hpre, h post hpost]
+
+example : invitationsIn [.body, .legacyX, .mucInvite, .subject] = 1 := by decide
+example : invitationsIn [.body, .legacyX, .mucOther] = 0 := by decide
 
 end XmppModel.Props.C18
